@@ -18,6 +18,7 @@ pub mod c16;
 pub mod c17;
 pub mod c18;
 pub mod c19;
+pub mod c20;
 
 pub type RunFn = fn(&Ctx) -> Finish;
 pub type ReplayFn = fn(&mut Local, &serde_json::Value) -> Result<(), String>;
@@ -42,6 +43,7 @@ pub fn registry() -> Vec<(&'static str, RunFn, ReplayFn)> {
         ("C17", c17::run as RunFn, c17::replay as ReplayFn),
         ("C18", c18::run as RunFn, c18::replay as ReplayFn),
         ("C19", c19::run as RunFn, c19::replay as ReplayFn),
+        ("C20", c20::run as RunFn, c20::replay as ReplayFn),
     ]
 }
 
